@@ -442,6 +442,55 @@ fn tok_parse(table: &str, cand: &str) -> String {
     })
 }
 
+fn comp_parse(kind: &str, t: &str) -> String {
+    let (kind, t) = (kind.to_string(), t.to_string());
+    guarded(move || match kind.as_str() {
+        "ttl" => Ttl::from_str(&t).map(|v| format!("ok {}", enc_ttl(&v))).unwrap_or_else(|_| "err".into()),
+        "wsize" => WindowSize::from_str(&t).map(|v| format!("ok {}", enc_wsize(&v))).unwrap_or_else(|_| "err".into()),
+        "opt" => TcpOption::from_str(&t).map(|v| format!("ok {}", enc_opt(&v))).unwrap_or_else(|_| "err".into()),
+        "hdr" => Header::from_str(&t).map(|v| format!("ok {}", enc_header(&v))).unwrap_or_else(|_| "err".into()),
+        _ => "err".into(),
+    })
+}
+
+/// the `FromStr` of the component types on every numeral 0..=300 in each form, with and without a
+/// leading zero, plus malformed neighbours
+fn components(ctx: &mut Ctx, r: &mut Rng) {
+    let mut cases: Vec<(&str, String)> = vec![];
+    for n in (0..=300u32).chain([999, 1000, 9999, 65534, 65535, 65536, 70000, 99999, 4294967295]) {
+        for z in ["", "0"] {
+            let d = format!("{z}{n}");
+            for t in [d.clone(), format!("{d}-"), format!("{d}+?"), format!("{d}+{d}"), format!("64+{d}"), format!("{d}+"), format!("+{d}")] {
+                cases.push(("ttl", t));
+            }
+            for t in [d.clone(), format!("mss*{d}"), format!("mtu*{d}"), format!("%{d}"), format!("mss{d}"), format!("*{d}"), format!("m*{d}")] {
+                cases.push(("wsize", t));
+            }
+            for t in [format!("eol+{d}"), format!("?{d}"), format!("eol{d}"), format!("eol+{d}x"), format!("nop{d}")] {
+                cases.push(("opt", t));
+            }
+        }
+    }
+    for t in ["", "*", "**", "-", "+?", "64-+", "64+?+", "64 ", " 64", "mss*", "mtu*", "%", "eol+", "?", "nop", "mss", "ws", "sok", "sack", "ts",
+        "NOP", "sackx", "ts1", "so", "?x", "??1"] {
+        for k in ["ttl", "wsize", "opt"] {
+            cases.push((k, t.to_string()));
+        }
+    }
+    for t in ["Host", "?Host", "Host=[a]", "?Host=[a,b]", "", "?", "=[x]", "Host=[", "Host=[a]]", "Host=[a]b", "Ho st", "Host:", "Host,",
+        "a-b", "-", "?-=[]", "H\u{e9}", "Host=[\u{e9}]", "??Host", "Host?", "Host=x", "Host=[]"] {
+        cases.push(("hdr", t.to_string()));
+    }
+    for _ in 0..ctx.n(300, 5000) {
+        let h = g_header(r, true, true);
+        let t = if r.chance(1, 2) { h.to_string() } else { mutate(r, &h.to_string(), HTTP_ALPHABET) };
+        cases.push(("hdr", t));
+    }
+    for (k, t) in cases {
+        ctx.emit(Line::op("C06.pcomp").tok(k).text(&t).finish(&comp_parse(k, &t)));
+    }
+}
+
 fn tokens(ctx: &mut Ctx) {
     // Display of every variant, and the parser on exactly that text
     let mut printed: Vec<(&str, String, String)> = vec![];
@@ -1205,6 +1254,8 @@ pub fn run(ctx: &mut Ctx) {
 
     // --- token tables
     tokens(ctx);
+    // --- component types
+    components(ctx, &mut r);
 
     // --- every signature line of the bundled database
     let lines = bundled_lines(ctx);
